@@ -89,6 +89,31 @@ func runC19(c *Ctx) {
 	R.Rule("non-blocking", "queued receivers receive only in a select with a default arm that returns the accumulated result; loop bounded by the limit; consecutive positions", 2)
 
 	c19Senders(c, "arm-table", false)
+	// ---- timer-armed: the timer that a select waits on has not been stopped before that select
+	R.Rule("timer-armed", "in the timed helpers a timer is not stopped (other than by a deferred call) before the select that waits on it: stopped first, the timeout never fires and a positive timeout waits without limit", 2)
+	for _, name := range []string{"chans.SendTimeout", "chans.RecvTimeout"} {
+		fi := c.fn("timer-armed", name)
+		ps := c.paths("timer-armed", fi)
+		if ps == nil {
+			continue
+		}
+		ok, why := true, ""
+		for _, p := range ps {
+			sel := -1
+			for i := range p.Events {
+				if p.Events[i].Kind == "select" && sel < 0 {
+					sel = i
+				}
+			}
+			for i := range p.Events {
+				e := &p.Events[i]
+				if e.Kind == "call" && !e.Deferred && (strings.HasSuffix(e.Name, "(*Timer).Stop") || strings.HasSuffix(e.Name, "(*Timer).Reset")) && sel >= 0 && i < sel {
+					ok, why = false, "a path calls "+e.Name+" before the select that waits on the timer"
+				}
+			}
+		}
+		R.Decide(ok, "timer-armed", fi.Name, "order", c.pos(fi), "the timer is running when the select waits on it", why)
+	}
 	// ---- receivers
 	for _, s := range []struct {
 		name       string
